@@ -193,9 +193,24 @@ theorem C10_shard_step (cfg : Cfg) (hR : 1 ≤ cfg.degreeBound) (ds : Dists D) (
     (vp : Path) (ops : List POp) (S S' : PStore) (cs : List VChange) (hS : S.keys.Nodup)
     (hWF : WF cfg.degreeBound g (fieldIds vp S)) (hb : pbatch vp ops S = .ok (S', cs))
     (h : apply cfg ds ord g (cs.map VChange.toChange) = .ok g') :
-    WF cfg.degreeBound g' (fieldIds vp S') := by
-  obtain ⟨hk, _, hm⟩ := C10_stream_live vp ops S S' cs hS hb
-  exact WF_congr _ g' _ _ (fieldIds_nodup vp S' hk) hm (C10_step cfg hR ds ord g g' _ _ hWF h)
+    WF cfg.degreeBound g' (fieldIds vp S') :=
+  shard_step_aux cfg hR ds ord g g' vp ops S S' cs hS hWF hb h
+
+/-- every history of write requests on the shard (accepted or rejected, any schema path) from a state in
+which the graph is well-formed for the points bucket ends in such a state -/
+theorem C10_shard_history_from (cfg : Cfg) (hR : 1 ≤ cfg.degreeBound) (vp : Path) (steps : List (SStep D))
+    (S : PStore) (g : Graph) (hS : S.keys.Nodup) (hWF : WF cfg.degreeBound g (fieldIds vp S)) :
+    (shardRun cfg vp steps (S, g)).1.keys.Nodup ∧
+    WF cfg.degreeBound (shardRun cfg vp steps (S, g)).2 (fieldIds vp (shardRun cfg vp steps (S, g)).1) :=
+  shard_history_from_aux cfg hR vp steps S g hS hWF
+
+/-- … in particular every history from the empty shard: after every write the graph has exactly one node
+and one vector per live point whose DOCUMENT has the field at the schema path, plus the entry node -/
+theorem C10_shard_history (cfg : Cfg) (hR : 1 ≤ cfg.degreeBound) (vp : Path) (steps : List (SStep D)) :
+    (shardRun cfg vp steps ([], Graph.init)).1.keys.Nodup ∧
+    WF cfg.degreeBound (shardRun cfg vp steps ([], Graph.init)).2
+      (fieldIds vp (shardRun cfg vp steps ([], Graph.init)).1) :=
+  shard_history_aux cfg hR vp steps
 
 end
 
@@ -238,5 +253,19 @@ theorem C10_withheld_change_witness :
        okAnd (apply exCfg exDists [] exGraph []) (fun g' => g'.keys.contains 3 && !wfB exCfg.degreeBound g' (fieldIds exVp S')) &&
        okAnd (apply exCfg exDists [] exGraph (cs.map VChange.toChange)) (fun g' => wfB exCfg.degreeBound g' (fieldIds exVp S'))
      | .error _ => false) = true := by decide
+
+/-- a history on the shard with the nested schema path: three inserts (one without the field), a request that
+is rejected (a scalar where the path expects an object: `dec.Query` fails; nothing changes), an update that
+replaces the parent of 3 by a sibling only and gives 4 the field — the final graph has exactly the nodes of
+the points whose document has the field -/
+example :
+    (let nv : Nat → Doc := fun t => [([110, 118], Leaf.vec t), ([116], Leaf.other)]
+     let s := shardRun exCfg exVp
+       [⟨exDists, [], [.ins 2 (nv 2), .ins 3 (nv 3), .ins 4 [([116], Leaf.other)]]⟩,
+        ⟨exDists, [], [.ins 5 [([110], Leaf.other)]]⟩,
+        ⟨exDists, [], [.upd 3 [([110, 115], Leaf.other)], .upd 4 [([110, 118], Leaf.vec 40), ([110, 115], Leaf.other)]]⟩]
+       ([], Graph.init)
+     s.1.map (·.1) == [4, 3, 2] && fieldIds exVp s.1 == [4, 2] && s.2.keys.length == 3 &&
+       wfB exCfg.degreeBound s.2 (fieldIds exVp s.1)) = true := by decide
 
 end Sema.C10
